@@ -247,7 +247,7 @@ Fixpoint prop_resolver (t : amap Z) (lastpub : list Z) (evs : list ev) (obs : li
 Definition incl_b (a b : list Z) : bool := forallb (fun x => zmem x b) a.
 Definition kwf_b (t : list Z) (e : kev) : bool :=
   match e with
-  | KAdd o => gen_kubeOnAddReplaces || incl_b t (ips o)
+  | KAdd o => true   (* the added object is the full state, whatever was published before *)
   | KDelete o => incl_b t (ips o)
   | KOnUpdate old new => negb (orv old =? orv new) || (incl_b t (ips new) && incl_b (ips new) t)
   | KUpdate _ => true
